@@ -24,7 +24,11 @@
     ([C05_declaration_order_is_free]); the same holds when declarations move to other modules
     (a dependency-closed group moved into an imported module: the resolved trees differ only in
     the positions of declarations and rec expressions, [C05_moving_declarations_is_free]).
-    Both semantics (the code's and the lexical one).
+    Both semantics (the code's and the lexical one). Comments and blanks between tokens are free
+    in parsing: the parser's answer on a token list is its answer on the list without trivia
+    tokens, cursors and leaves counted among the non-trivia tokens
+    ([C05_parse_ignores_trivia], for the plain parser of the oal grammar, any fuel), so token
+    lists that differ only by trivia parse alike ([C05_parse_same_up_to_trivia]).
     Proved here (partial), for every syntax tree and environment: parenthesising a
     sub-expression and renaming identifiers by any injective renaming leave the binding
     relation computed by name resolution unchanged (hence acceptance by the resolver and the
@@ -35,6 +39,7 @@
     exceptions are recorded as known findings (K13, K15). *)
 From Oal Require Import Resolve ResolveProofs RewriteProofs.
 From Oal Require Eval EvalProofs FuelProofs ParenProofs InlineProofs KeyMap.
+From Oal Require Peg Grammar TriviaProofs.
 
 Theorem C05_paren_resolution_partial : forall en t, lex en (RNode [t]) = lex en t.
 Proof. exact paren_resolution. Qed.
@@ -157,3 +162,22 @@ Example C05_declaration_order_nonvacuous :
             Eval.eval_program false KeyMap.ex_perm_P' 50 (map (KeyMap.km_expr (KeyMap.within KeyMap.swap01) KeyMap.idp) KeyMap.ex_perm_rs) =
             Eval.Ok (KeyMap.km_result KeyMap.ids (KeyMap.within KeyMap.swap01) KeyMap.idp r).
 Proof. split; [exact KeyMap.ex_permuted|exact KeyMap.ex_permute_declarations]. Qed.
+
+(** comments and blanks between tokens *)
+Theorem C05_parse_ignores_trivia : forall n toks,
+  Grammar.parse_pure n (TriviaProofs.strip_trivia toks) = TriviaProofs.rmap Grammar.is_trivia toks (Grammar.parse_pure n toks).
+Proof. exact TriviaProofs.oal_parse_ignores_trivia. Qed.
+Print Assumptions C05_parse_ignores_trivia.
+
+Theorem C05_parse_same_up_to_trivia : forall n toks1 toks2,
+  TriviaProofs.strip_trivia toks1 = TriviaProofs.strip_trivia toks2 ->
+  TriviaProofs.rmap Grammar.is_trivia toks1 (Grammar.parse_pure n toks1) = TriviaProofs.rmap Grammar.is_trivia toks2 (Grammar.parse_pure n toks2).
+Proof. exact TriviaProofs.oal_parse_same_up_to_trivia. Qed.
+Print Assumptions C05_parse_same_up_to_trivia.
+
+Example C05_trivia_nonvacuous :
+  let t1 := [20; 0; 26; 0; 48; 0; 5; 40; 1]%N in
+  let t2 := [20; 26; 48; 5; 40]%N in
+  TriviaProofs.strip_trivia t1 = t2 /\ t1 <> t2 /\
+  exists s ms, Grammar.parse_pure 200 t2 = Peg.Ok s ms /\ TriviaProofs.rmap Grammar.is_trivia t1 (Grammar.parse_pure 200 t1) = Peg.Ok s ms /\ s = 5%nat.
+Proof. exact TriviaProofs.ex_trivia. Qed.
